@@ -184,6 +184,8 @@ def case_main():
     out = {"status": "started"}
     try:
         arrival, logs = [], []
+        for pre in a.get("pre") or []:          # earlier runs in the same interpreter (state kept between runs must not matter)
+            run_inproc(pre["spec"], pre["cfg"])
         res, idx = run_inproc(a["spec"], a["cfg"], a.get("result_file"), a.get("side"), a.get("faults"), a.get("only_triple"), logs, arrival)
         out = {"status": "ok", "canon": canon_result(res), "arrival": arrival, "logs": logs[-200:], "idx": idx}
     except BaseException as e:
@@ -199,10 +201,10 @@ def case_main():
     except Exception: pass
     sys.stdout.flush(); os._exit(0)
 
-def run_subprocess(spec, cfg, workdir, result_file=None, side=None, faults=None, only_triple=None, timeout=240):
+def run_subprocess(spec, cfg, workdir, result_file=None, side=None, faults=None, only_triple=None, timeout=240, pre=None):
     ip, op = os.path.join(workdir, "in.json"), os.path.join(workdir, "out.json")
     if os.path.exists(op): os.remove(op)
-    with open(ip, "w") as f: json.dump({"spec": spec, "cfg": list(cfg), "result_file": result_file, "side": side, "faults": faults, "only_triple": only_triple}, f)
+    with open(ip, "w") as f: json.dump({"spec": spec, "cfg": list(cfg), "result_file": result_file, "side": side, "faults": faults, "only_triple": only_triple, "pre": pre}, f)
     errp = os.path.join(workdir, "stderr.txt")
     with open(errp, "w") as ef:
         proc = subprocess.Popen([sys.executable, "-W", "ignore", "-m", "vf.expkit", ip, op], stdout=ef, stderr=ef, stdin=subprocess.DEVNULL, start_new_session=True)
